@@ -140,7 +140,7 @@ def shard_plan(cases, n_core, n_seed):
     return plans
 
 
-GROUP_SHARDS = {"single": (14, 4), "array": (8, 2), "nc": (6, 2), "enumf": (4, 2), "custom": (8, 2), "mixed": (6, 3), "base": (4, 2), "bld": (6, 2), "dbgf": (4, 2)}
+GROUP_SHARDS = {"single": (14, 4), "array": (8, 2), "nc": (6, 2), "enumf": (4, 2), "custom": (8, 2), "mixed": (6, 3), "base": (4, 2), "bld": (6, 2), "dbgf": (4, 2), "probe11": (2, 1)}
 
 
 class Workspace:
